@@ -9,6 +9,7 @@ embedded/store/verification.go, branch by branch), ImmuModel/Store/History.lean.
 import ImmuModel.Store.Proofs.C01Proofs
 import ImmuModel.Store.Proofs.C01Complete
 import ImmuModel.Client.Proofs.Flow
+import ImmuModel.Client.Proofs.SqlFlow
 
 namespace ImmuModel.Props.C01
 open ImmuModel ImmuModel.Tx ImmuModel.Merkle ImmuModel.Store
@@ -165,11 +166,84 @@ theorem client_returned_entry_is_in_tx (hs : Hs D) (sigOk : Client.State D → B
     (⟨r.entry.md, Client.wrapKey reqKey, hs.H (UInt8.ofNat Gen.dbPlainValuePrefix :: r.entry.value)⟩ : EntryV1 D) ∈ es ∨ HColl hs :=
   Client.verifiedGet_entry_in_tx hs sigOk st reqKey atTx r ns hpos hv1 href h es hne hfs hfit hes
 
+/-- **Client flow (pkg/client VerifyRow).** What an accepted `VerifyRow` establishes when the client holds
+a state: the sql-encoded row of the response decodes, the column-by-column comparison of the PRESENTED row
+with the decoded row passed, the digest of the entry `(pkKey, no metadata, SqlEntry.Value)` — `pkKey` built
+from the caller's primary-key values — is included under the entries digest of the header that hashes to the
+proven state and carries the proven tx id, and the dual proof between old and new state was accepted (so the
+theorems above apply).  The model `Client.verifyRow` is tied to the real SDK by the `vrow` correspondence
+(real pkg/client over bufconn; rows and responses tampered).  The catalog part of the response (`colIds`,
+`colTypes`, `maxColId`) is NOT covered by any proof: known finding `catalog-metadata-unauthenticated`. -/
+theorem client_verifyRow_sound (hs : Hs D) (sigOk : Client.State D → Bool) (st : Client.State D) (pkCountOk : Bool)
+    (pkKey : Except Client.RowErr Bytes) (row : List (Bytes × Option Client.RowVal)) (r : Client.SqlGetResp D)
+    (ns : Client.State D) (hpos : 0 < st.txId)
+    (h : Client.verifyRow hs sigOk st pkCountOk pkKey row r = some (.ok ns)) :
+    ∃ key decoded dg hdr provenAlh sId sAlh tId tAlh,
+      pkKey = .ok key ∧ Client.decodeRow r.value r.colTypes r.maxColId = .ok decoded ∧
+      Client.verifyRowAgainst decoded r.colIds row = .ok () ∧
+      Client.specDigest hs r.version (key, [], r.value) = some dg ∧
+      ((st.txId ≤ r.tx ∧ r.dual.targetTxHeader = some hdr ∧ sId = st.txId ∧ sAlh = st.txHash ∧ tId = r.tx ∧ tAlh = provenAlh) ∨
+       (r.tx < st.txId ∧ r.dual.sourceTxHeader = some hdr ∧ sId = r.tx ∧ sAlh = provenAlh ∧ tId = st.txId ∧ tAlh = st.txHash)) ∧
+      alh hs hdr = some provenAlh ∧ hdr.id = r.tx ∧
+      hVerifyInclusion hs.mhH hs.enc r.inclusion dg hdr.eh = true ∧
+      verifyDualProof hs (some r.dual) sId tId sAlh tAlh = some true ∧
+      ns = ⟨tId, tAlh⟩ ∧ sigOk ns = true :=
+  Client.verifyRow_sound hs sigOk st pkCountOk pkKey row r ns hpos h
+
+/-- **The presented row IS the proven row, column by column** (seeded change c01-e).  Every column of a row
+accepted by `VerifyRow` is a column of the response's table map; a presented NULL means the decoded proven
+row holds NO value for that column (NULLs are not stored in the encoded row), a presented non-NULL value is
+the decoded proven value (floats: `==` of float64, i.e. equal and not NaN). -/
+theorem client_verifyRow_presented_row_is_proven_row (hs : Hs D) (sigOk : Client.State D → Bool) (st : Client.State D)
+    (pkCountOk : Bool) (pkKey : Except Client.RowErr Bytes) (row : List (Bytes × Option Client.RowVal))
+    (r : Client.SqlGetResp D) (ns : Client.State D) (hpos : 0 < st.txId)
+    (h : Client.verifyRow hs sigOk st pkCountOk pkKey row r = some (.ok ns)) :
+    ∃ decoded, Client.decodeRow r.value r.colTypes r.maxColId = .ok decoded ∧
+      ∀ p ∈ row, ∃ id v, Client.lookupName r.colIds p.1 = some id ∧ p.2 = some v ∧
+        ((v = .null ∧ Client.lookupId decoded id = none) ∨
+         (v ≠ .null ∧ ∃ d, Client.lookupId decoded id = some d ∧
+           (v = d ∨ ∃ a b, v = .f a ∧ d = .f b ∧ Client.floatEq a b = true))) :=
+  Client.verifyRow_presented_row_is_proven_row hs sigOk st pkCountOk pkKey row r ns hpos h
+
+/-- `verifyRowAgainst` is EXACT: it accepts iff every presented column is a known column carrying a value
+and either claims NULL for a column absent from the proven row, or compares equal to the proven value. -/
+theorem client_verifyRowAgainst_exact (decoded : List (Nat × Client.RowVal)) (colIds : List (Bytes × Nat))
+    (row : List (Bytes × Option Client.RowVal)) :
+    Client.verifyRowAgainst decoded colIds row = .ok () ↔
+    ∀ p ∈ row, ∃ id v, Client.lookupName colIds p.1 = some id ∧ p.2 = some v ∧
+      ((v = .null ∧ Client.lookupId decoded id = none) ∨
+       (∃ d, Client.lookupId decoded id = some d ∧ Client.rowValEqual v d = .ok true)) :=
+  Client.verifyRowAgainst_iff decoded colIds row
+
+/-- A NULL claim is accepted only for a column the proven row has no value for (the decoded proven row never
+contains NULL values: `decodeRow_no_null`). -/
+theorem client_verifyRow_null_claim_means_absent (enc : Bytes) (colTypes : List (Nat × Option Sql.SqlType))
+    (maxColId : Nat) (decoded : List (Nat × Client.RowVal)) (colIds : List (Bytes × Nat))
+    (row : List (Bytes × Option Client.RowVal))
+    (hd : Client.decodeRow enc colTypes maxColId = .ok decoded)
+    (h : Client.verifyRowAgainst decoded colIds row = .ok ()) :
+    ∀ name, (name, some Client.RowVal.null) ∈ row →
+      ∃ id, Client.lookupName colIds name = some id ∧ Client.lookupId decoded id = none :=
+  Client.verifyRowAgainst_null_means_absent decoded colIds row
+    (Client.decodeRow_no_null enc colTypes maxColId decoded hd) h
+
+/-- **Necessity of the order of the two checks** (the regression c01-e): the variant that takes the
+"value is NULL ⇒ continue" shortcut BEFORE looking the column up in the proven row accepts a NULL claim for a
+column committed as `1000`; the code as it is rejects it. -/
+theorem client_verifyRow_earlyNull_variant_unsound :
+    Client.verifyRowAgainstEarlyNull [(1, Client.RowVal.n 1000)] [([99], 1)] [([99], some Client.RowVal.null)] = .ok () ∧
+    Client.verifyRowAgainst [(1, Client.RowVal.n 1000)] [([99], 1)] [([99], some Client.RowVal.null)] = .error .corrupted :=
+  Client.earlyNull_accepts_null_for_committed_value
+
 /-! Non-vacuity: a well-formed one-transaction history exists for every hash, and its state
 verifies against itself (so the hypotheses of the theorems above are satisfiable). -/
 example (hs : Hs D) (d : D) : LinExt hs 1 d 1 d := LinExt.refl
 
 example (hs : Hs D) (d : D) : ∃ p, verifyLinearProof hs (some p) 1 1 d d = true :=
   verifyLinearProof_complete hs 1 1 d d (by omega) LinExt.refl
+
+/-- An honest row (a value, a genuine NULL) is accepted: the hypotheses of the VerifyRow theorems are satisfiable. -/
+example : Client.verifyRowAgainst [(1, Client.RowVal.n 1000)] [([99], 1), ([98], 2)]
+    [([99], some (Client.RowVal.n 1000)), ([98], some Client.RowVal.null)] = .ok () := by decide
 
 end ImmuModel.Props.C01
